@@ -9,4 +9,16 @@ CHECKS = [
         "text": "Theorems, for all int64 values/offsets/widths with no bound: the offset guards admit exactly the in-range offsets (no wrap-around), the range checks are exactly representability, the stored bytes are the two's-complement digits in the stated order placed by a splice that leaves every other byte unchanged, sign extension is two's-complement decoding, read(write(v)) = v; the registered method table (all Uint/UInt aliases) matches the names. The guards, range checks, sign extension and the per-method facts are re-extracted from buffer.go on every run, so the theorems are re-proved against the current source; the end-to-end call semantics (argument coercion order, error classes, float narrowing) is tied by running model, specification and real code on the same generated calls.",
         "note": "Trusted: Lean kernel; verif-extract; the harness; goja's ToInteger/IsNumber and Go's float32 conversion are modelled (bit-level) and only exercised, not proved. The composition of the building-block theorems into one end-to-end statement per method is checked by the driver on every generated call rather than proved.",
     },
+    {
+        "property_id": "C19",
+        "technique": "Lean 4 proof (refinement of the single-pass formatter to tokenise+render, by functional induction) + regenerated console sink table + differential correspondence",
+        "text": "Theorem format_eq_spec: for every format string and every argument list (and every rendering of the arguments) the code's single pass with its pending-percent flag and argument cursor equals positional rendering of the tokenised string; corollaries: format(f) = f for every f (all '%', '%%', '%x' and a final '%' kept), literals preserved, %s/%d/%j take the next unused argument, surplus arguments appended after single spaces, a directive with no argument left stays. console: the sink table is re-extracted from console/module.go and proved equal to log/info/debug->Log, warn->Warn, error->Error; one message per call in call order. The model is tied to the code by running both on generated calls (util.format and console through a recording Printer).",
+        "note": "Trusted: Lean kernel, verif-extract (sink table, directive letters), the harness. goja's String/Number/JSON.stringify renderings are parameters. The loop itself is a hand transcription of util/module.go tied by correspondence only.",
+    },
+    {
+        "property_id": "C20",
+        "technique": "Lean 4 proof (split-at-first-'=' law, snapshot = host value for every name by induction over the environment, isolation invariant over every operation history) + child-process differential correspondence",
+        "text": "Theorems: splitting k++'='++v gives (k,v) for every value (empty, several '='); for every host environment the map a runtime sees has each name once and under every name exactly the host's value (absent iff not a variable; entries without '=' are no variables and do not crash); a write/delete in runtime i changes no other runtime's map and never the host list, for every history. Tied to the code by running the probe in a child process with a generated environment and comparing Object.entries(process.env) of 1-3 runtimes and os.Environ() afterwards with the model.",
+        "note": "Trusted: Lean kernel, the harness, os.Environ and goja's Go-map wrapper. Environments are sampled, not enumerated.",
+    },
 ]
